@@ -31,9 +31,10 @@ ASSUMPTIONS = ["the message size argument of the negotiation is the size of a me
 
 
 def check(env, rep, tier):
-    include(rep, env, tier, "c08", ("C08.4",), "C10.9",
+    include(rep, env, tier, "c08", ("C08.4", "C08.7"), "C10.9",
             "'the message carrying the block fits the budget': the reply was measured before it is rebuilt from the cached copy, so that "
-            "rebuild has to replace the options (not append to them) and put exactly one Block2 option on it")
+            "rebuild has to replace the options (not append to them) and put exactly one Block2 option on it; 'never larger than the size the client asked for': "
+            "every request that carries a Block2 option leaves it remembered for the reply's fragmentation")
     include(rep, env, tier, "c13", ("C13.1", "C13.5"), "C10.8", "'the size the client asked for': the client's Block option reaches the negotiation through the Block decoder, which accepts every encodable value (a value that fails to decode is treated as absent)")
     configs = ["default"] if tier == "quick" else ["default", "udp"]
     rep.configs = configs
